@@ -7,6 +7,8 @@ import (
 
 // Random abstract Datalog programs (integer coded as in spec/Datalog.tla).
 type progGen struct {
+	strOps bool // use starts_with instead of the order comparisons (the two need different embeddings)
+	minFC  int  // smallest constant used in facts and heads (1: constant 0 only ever appears as a literal of an expression)
 	r      *rand.Rand
 	arity  []int // arity per predicate id
 	consts int
@@ -25,7 +27,7 @@ func (g *progGen) fact() []int {
 	p := g.r.Intn(len(g.arity))
 	a := []int{p}
 	for i := 0; i < g.arity[p]; i++ {
-		a = append(a, g.r.Intn(g.consts))
+		a = append(a, g.minFC+g.r.Intn(g.consts-g.minFC))
 	}
 	return a
 }
@@ -71,6 +73,9 @@ func (g *progGen) rule(maxBody int, query bool) (ARule, bool) {
 	ordered := false
 	if len(vs) > 0 && g.r.Intn(3) == 0 {
 		o := []string{"lt", "le", "eq", "ne"}[g.r.Intn(4)]
+		if g.strOps {
+			o = []string{"pre", "pre", "eq", "ne"}[g.r.Intn(4)]
+		}
 		l := vs[g.r.Intn(len(vs))]
 		rr := g.r.Intn(g.consts)
 		if g.r.Intn(2) == 0 {
@@ -82,20 +87,21 @@ func (g *progGen) rule(maxBody int, query bool) (ARule, bool) {
 	if g.r.Intn(15) == 0 {
 		r.G = append(r.G, AGuard{O: []string{"T", "F"}[g.r.Intn(2)]})
 	}
-	if query {
+	if query && g.r.Intn(3) != 0 {
 		r.H = []int{queryPred}
 		for _, v := range vs {
 			r.H = append(r.H, v)
 		}
 		return r, ordered
 	}
+	// (one query in three has an ordinary head: its instances may coincide with facts already present)
 	p := g.r.Intn(len(g.arity))
 	r.H = []int{p}
 	for i := 0; i < g.arity[p]; i++ {
 		if len(vs) > 0 && g.r.Intn(5) != 0 {
 			r.H = append(r.H, vs[g.r.Intn(len(vs))])
 		} else {
-			r.H = append(r.H, g.r.Intn(g.consts))
+			r.H = append(r.H, g.minFC+g.r.Intn(g.consts-g.minFC))
 		}
 	}
 	return r, ordered
@@ -131,6 +137,76 @@ func init() {
 				c.MI = 1 + r.Intn(4)
 			}
 			out(c)
+		}
+	}
+}
+
+// generator "authz": random first-order tokens (authority + 0..3 later blocks) and authorizer contents
+// (facts, rules, checks with 1-2 queries, 0-3 ordered policies of both kinds), error-free guards.
+func init() {
+	generators["authz"] = func(tier string, seed int64, out func(interface{})) {
+		n := 2500
+		if tier == "thorough" {
+			n = 40000
+		}
+		r := rand.New(rand.NewSource(seed))
+		for i := 0; i < n; i++ {
+			g := newProgGen(r)
+			g.strOps = i%2 == 0
+			if i%4 == 0 {
+				g.minFC = 1
+			}
+			blk := func(maxF, maxR, maxC int) ABlock {
+				b := ABlock{F: [][]int{}, R: []ARule{}, C: [][]ARule{}}
+				seen := map[string]bool{}
+				for k, m := 0, r.Intn(maxF+1); k < m; k++ {
+					f := g.fact()
+					if key := fmt.Sprint(f); !seen[key] {
+						seen[key] = true
+						b.F = append(b.F, f)
+					}
+				}
+				for k, m := 0, r.Intn(maxR+1); k < m; k++ {
+					rl, _ := g.rule(2, false)
+					b.R = append(b.R, rl)
+				}
+				for k, m := 0, r.Intn(maxC+1); k < m; k++ {
+					qs := []ARule{}
+					for q, mq := 0, 1+r.Intn(2); q < mq; q++ {
+						qr, _ := g.rule(2, true)
+						qr.H = []int{99}
+						qs = append(qs, qr)
+					}
+					b.C = append(b.C, qs)
+				}
+				return b
+			}
+			tok := AToken{Auth: blk(4, 2, 2), Blocks: []ABlock{}, Via: []string{"mem", "bytes", "sealed", "sealedbytes"}[r.Intn(4)]}
+			for k, m := 0, r.Intn(4); k < m; k++ {
+				tok.Blocks = append(tok.Blocks, blk(2, 1, 2))
+			}
+			zb := blk(4, 2, 2)
+			az := &AAz{F: zb.F, R: zb.R, C: zb.C, P: []APolicy{}}
+			for k, m := 0, r.Intn(4); k < m; k++ {
+				p := APolicy{Kind: []string{"allow", "deny"}[r.Intn(2)], Q: []ARule{}}
+				for q, mq := 0, 1+r.Intn(2); q < mq; q++ {
+					qr, _ := g.rule(2, true)
+					qr.H = []int{99}
+					p.Q = append(p.Q, qr)
+				}
+				az.P = append(az.P, p)
+			}
+			if g.strOps && i%3 == 0 {
+				// a first policy whose string literal occurs NOWHERE else (constant id consts+1: a prefix of every other constant)
+				q, _ := g.rule(1, true)
+				q.H = []int{99}
+				if vs := bodyVars(q.B); len(vs) > 0 {
+					q.G = []AGuard{{O: "pre", L: vs[0], R: g.consts + 1}}
+					az.P = append([]APolicy{{Kind: []string{"deny", "allow"}[r.Intn(2)], Q: []ARule{q}}}, az.P...)
+				}
+			}
+			out(AuthzCase{ID: fmt.Sprintf("ga%d", i), Emb: seed*1000003 + int64(i), Toks: []AToken{tok},
+				Script: []AOp{{Op: "new", A: 0, T: 0}, {Op: "add", A: 0, Az: az}, {Op: "authorize", A: 0}, {Op: "world", A: 0}}})
 		}
 	}
 }
